@@ -176,7 +176,8 @@ def run_history(bdir, system, history, models=None, args=("-l",), want_views=Tru
 
 def sys_record(system, models=""):
     return {"e": "sys",
-            "threads": [{"tid": t["tid"], "pid": t["pid"], "app": t["app"], "loom": t["loom"]}
+            "threads": [{"tid": t["tid"], "pid": t["pid"], "app": t["app"], "loom": t["loom"],
+                         "rank": t.get("rank", -1)}
                         for t in system["threads"]],
             "cpus": [{"loom": c["loom"], "idx": c["idx"], "phy": c["phy"], "virt": c["virt"]}
                      for c in system["cpus"]],
